@@ -296,6 +296,26 @@ def run_case(case, ctx):
             ctx.count('via_ufunc')
         if size:
             ctx.count('array_arguments')
+        if size >= 2 and case['via'] != 'ufunc':
+            # history: the same Bicomplex object evaluated, changed by item assignment (entries swapped), evaluated again: the
+            # second value is that of a fresh number holding the same entries
+            zz = bic(xs, hs)
+            try:
+                with np.errstate(all='ignore'):
+                    getattr(zz, f)()
+                    first = zz[0]
+                    first = Bicomplex(np.array(first.z1, copy=True), np.array(first.z2, copy=True))
+                    zz[0] = zz[size - 1]
+                    zz[size - 1] = first
+                    again = wrap(getattr(zz, f)())
+                    fresh = wrap(getattr(Bicomplex(np.array(zz.z1, copy=True), np.array(zz.z2, copy=True)), f)())
+                ctx.count('evaluated_again_after_item_assignment')
+                if np.asarray(again.z1).tobytes() != np.asarray(fresh.z1).tobytes() or np.asarray(again.z2).tobytes() != np.asarray(fresh.z2).tobytes():
+                    ctx.reject('value_depends_on_what_the_object_held_before', observed=[np.ravel(again.z1)[:2], np.ravel(again.z2)[:2]],
+                               expected=[np.ravel(fresh.z1)[:2], np.ravel(fresh.z2)[:2]], function=f)
+                    return
+            except Exception as exc:
+                ctx.count('item_assignment_history_raised:%s' % type(exc).__name__)
         if np.shape(res.z1) != np.shape(z.z1):
             ctx.reject('shape', observed=list(np.shape(res.z1)), expected=list(np.shape(z.z1)), function=f)
             return
